@@ -252,7 +252,7 @@ def compare_answers(o: Oracle, sub: str, got: dict, want: dict) -> None:
 # ---------------------------------------------------------------------------------------------
 # child interpreters
 # ---------------------------------------------------------------------------------------------
-def child_env(cache: str, home: str, data_folder: str | None = None, disabled: bool = False) -> dict:
+def child_env(cache: str, home: str, data_folder: str | None = None, disabled: bool = False, restricted: str | None = None) -> dict:
     env = {
         "PATH": os.environ.get("PATH", "/usr/bin:/bin"),
         "PYTHONPATH": REPO,
@@ -270,6 +270,8 @@ def child_env(cache: str, home: str, data_folder: str | None = None, disabled: b
         env["SPSDK_DATA_FOLDER"] = data_folder
     if disabled:
         env["SPSDK_CACHE_DISABLED"] = "1"
+    if restricted:
+        env["SPSDK_RESTRICTED_DATA_FOLDER"] = restricted
     return env
 
 
@@ -285,11 +287,11 @@ def new_case_dir(tag: str) -> str:
 
 
 def start_children(case_dir: str, cache: str, cfgs: list, data_folder: str | None = None, disabled: bool = False,
-                   scheduler=None, timeout: float = 420.0) -> list:
+                   scheduler=None, timeout: float = 420.0, restricted: str | None = None) -> list:
     """Start len(cfgs) interpreters on the same cache folder; returns one result dict per child."""
     from vf.gen.c18_child import SCRIPT
 
-    env = child_env(cache, os.path.join(case_dir, "home"), data_folder, disabled)
+    env = child_env(cache, os.path.join(case_dir, "home"), data_folder, disabled, restricted)
     n = len(cfgs)
     barrier = None
     if n > 1 or scheduler is not None:
@@ -477,7 +479,7 @@ def check_after_state(o: Oracle, cache: str, db) -> None:
 
 
 def run_group(o: Oracle, case_dir: str, cache: str, n: int, entries: list, db=None, queries=None, data_folder=None,
-              disabled: bool = False, followup: bool = False, scheduler=None, shim=None, kills=None, work=None) -> list:
+              disabled: bool = False, followup: bool = False, scheduler=None, shim=None, kills=None, work=None, restricted=None, late_damage=None) -> list:
     """n simultaneous first uses on `cache`; every child is judged; then after-state (+ optional follow-up start)."""
     db = db or _S["db"]
     queries = queries or _S["queries"]
@@ -488,17 +490,19 @@ def run_group(o: Oracle, case_dir: str, cache: str, n: int, entries: list, db=No
             c["shim"] = {"dir": shim, "kill": (kills or {}).get(i)}
         if work:
             c["work"] = work
+        if late_damage is not None:
+            c["late_damage"] = late_damage
         cfgs.append(c)
-    results = start_children(case_dir, cache, cfgs, data_folder, disabled, scheduler)
+    results = start_children(case_dir, cache, cfgs, data_folder, disabled, scheduler, restricted=restricted)
     sub = ("cache_disabled_equivalent", "cache_disabled_equivalent") if disabled else ("starts_normally", "answers_match_truth")
     for i, res in enumerate(results):
         judge(o, res, truth_answers(db, queries, cfgs[i]["entry"]), sub[0], sub[1], killed=bool((kills or {}).get(i)))
     o.label("real_start")
-    if not disabled and not kills:  # a killed writer may leave a damaged file; the follow-up start must cope with it
+    if not disabled and not kills and late_damage is None:  # a killed writer may leave a damaged file; the follow-up start must cope with it
         check_after_state(o, cache, db)
     if followup:
         o.label("followup")
-        res = start_children(case_dir, cache, [{"queries": queries, "entry": "api"}], data_folder, False)[0]
+        res = start_children(case_dir, cache, [{"queries": queries, "entry": "api"}], data_folder, False, restricted=restricted)[0]
         judge(o, res, truth_answers(db, queries, "api"), "starts_normally_afterwards", "answers_match_truth_afterwards")
         check_after_state(o, cache, db)
     return results
@@ -639,6 +643,7 @@ STALE_STATES = ["stale_device_touched", "stale_device_feature_removed", "stale_d
                 "stale_device_added", "stale_device_removed", "stale_device_same_size", "stale_device_same_mtime",
                 "stale_schema_same_size", "stale_schema_same_mtime", "stale_cached_file_removed"]
 WORK_STATES = {"work_edits_loaded_data_cold": {}, "work_edits_loaded_data_warm": {"q": "valid", "d": "valid"}}
+LATE_DAMAGE_STATES = {"late_damage_empty": 0, "late_damage_2_bytes": 2, "late_damage_half": -1, "late_damage_64k": 65536, "late_damage_100": 100}
 DISABLED_STATES = {"disabled_cold": {"nodir": True}, "disabled_warm": {"q": "valid", "d": "valid"},
                    "disabled_damaged": {"q": ["prefix", 0], "d": ["prefix", 0]}}
 
@@ -657,6 +662,9 @@ def _state_items(tier: str) -> list:
         items.append({"state": s, "entry": "api"})
     items.append({"state": "disabled_cold", "entry": "cli"})
     for s in WORK_STATES:
+        items.append({"state": s, "entry": "api"})
+    items.append({"state": "stale_restricted_defaults_edited", "entry": "api"})
+    for s in LATE_DAMAGE_STATES:
         items.append({"state": s, "entry": "api"})
     return items
 
@@ -782,10 +790,57 @@ def run_state(case, o: Oracle) -> None:
             raise HarnessError("fewer than two data files to work with")
         run_group(o, case_dir, cache, 1, [entry], followup=True, work={"edit": df[:-1], "then_load": df[-1:]})
         o.nontrivial(True)
+    elif state in LATE_DAMAGE_STATES:
+        # the cache file is cut down (as by a writer killed mid-write) while this process is already running; its next load of a
+        # configuration file finds the damaged file when it wants to merge and rewrite the cache
+        o.label("late_damage")
+        prepare_cache(cache, {})
+        res = run_group(o, case_dir, cache, 1, [entry], followup=True, late_damage=LATE_DAMAGE_STATES[state])
+        if res and res[0].get("out") and not res[0]["out"].get("late_damage_files"):
+            raise HarnessError("the child found no data cache file to damage")
+        o.nontrivial(True)
     elif state in DISABLED_STATES:
         o.label("disabled")
         prepare_cache(cache, DISABLED_STATES[state])
         run_group(o, case_dir, cache, 1, [entry], disabled=True)
+        o.nontrivial(True)
+    elif state == "stale_restricted_defaults_edited":
+        # a restricted-data folder (SPSDK_RESTRICTED_DATA_FOLDER) that brings its own defaults file: those defaults are what is
+        # parsed and cached, so an edit of that file must be noticed by the next process
+        o.label("stale", "restricted_data")
+        import spsdk
+
+        tree = os.path.join(case_dir, "tree")
+        data = make_tree(tree)
+        rroot = os.path.join(case_dir, "restricted")
+        os.makedirs(os.path.join(rroot, "data", "common"))
+        os.makedirs(os.path.join(rroot, "data", "devices"))  # the layout of a data folder: common/ and devices/
+        ver = spsdk.version
+        with open(os.path.join(rroot, "metadata.yaml"), "w", encoding="utf-8") as f:
+            f.write("version: '%d.%d'\n" % (ver.major, ver.minor))
+        rdef = os.path.join(rroot, "data", "common", "database_defaults.yaml")
+        shutil.copy(os.path.join(REPO, "spsdk", "data", "common", "database_defaults.yaml"), rdef)
+        # ground truth: the same data with the restricted defaults in place of the standard ones (a link, so that it follows the edit)
+        ttree = os.path.join(case_dir, "truth")
+        tdata = make_tree(ttree)
+        os.remove(os.path.join(tdata, "common", "database_defaults.yaml"))
+        os.symlink(rdef, os.path.join(tdata, "common", "database_defaults.yaml"))
+        db0 = _truth_db(ttree)
+        q0 = build_queries(db0, _S["tier"])
+        run_group(o, case_dir, cache, 1, ["api"], db=db0, queries=q0, data_folder=data, restricted=rroot)
+        before = digest(truth_answers(db0, q0, "api"))
+
+        def edit(d):
+            d["features"]["mbi"]["c18_marker"] = 18
+            d["features"]["mbi"]["sub_features"] = list(d["features"]["mbi"].get("sub_features") or []) + ["c18_sub"]
+        _rewrite_yaml(rdef, edit)
+        db1 = _truth_db(ttree)
+        if db1.errors:
+            raise HarnessError("edited restricted defaults do not compose: %s" % db1.errors[:2])
+        q1 = build_queries(db1, _S["tier"])
+        if digest(truth_answers(db1, q1, "api")) == before:
+            raise HarnessError("the edit of the restricted defaults does not change any expected answer")
+        run_group(o, case_dir, cache, 1, [entry], db=db1, queries=q1, data_folder=data, restricted=rroot, followup=True)
         o.nontrivial(True)
     elif state in STALE_STATES:
         o.label("stale")
